@@ -18,7 +18,7 @@ def primitive_idents(facts):
         _shape_cache[k] = tuple(b.ident() for fn, n in ((refs.FTS, 2), (refs.R3, 3)) for b in rules_arith.find_by_shape(facts, n, fn))
     return _shape_cache[k]
 
-def tree_of(facts, body, level="prim", keep=(), inline_extra=(), args=None, max_nodes=40000, inline_private=None, info=None):
+def tree_of(facts, body, level="prim", keep=(), inline_extra=(), args=None, max_nodes=40000, inline_private=None, info=None, loops="reject"):
     """op level: public items (operators, inherent methods) stay opaque; private helpers are inlined so
     that extracting or inlining one does not change the tree; the renormalisation primitives keep
     their (conformance-identified) names."""
@@ -27,7 +27,7 @@ def tree_of(facts, body, level="prim", keep=(), inline_extra=(), args=None, max_
     if level == "op" and inline_private:
         keep = tuple(keep) + primitive_idents(facts)
     pol = vg.Policy(facts, level, keep=keep, inline_extra=inline_extra, inline_private=inline_private)
-    ex = vg.Exec(facts, pol, max_nodes=max_nodes)
+    ex = vg.Exec(facts, pol, max_nodes=max_nodes, loops=loops)
     t = ex.run_body(body, args)
     if info is not None:
         info["iterated"] = list(ex.iterated)
